@@ -1,6 +1,7 @@
 (* Property C06 -- only chunks missing from seeds and prior output are fetched, each once. *)
 From Bita Require Import Model.Base Model.ChunkIndex Model.CloneOutput Model.CloneSpec.
-From Bita Require Import Proofs.Planner Proofs.CloneCorrect Proofs.CloneFinal.
+From Bita Require Import Model.Archive Model.CloneArchive.
+From Bita Require Import Proofs.Planner Proofs.CloneCorrect Proofs.CloneFinal Proofs.TamperSafe.
 
 (* the chunks requested from the archive are exactly the descriptors, in archive order, whose key was
    found neither by the scan of the prior output (when it is used as seed) nor in any seed; with
@@ -14,4 +15,16 @@ Theorem C06_fetch_exact :
     = filter (fun k => negb (found oidx seeds k)) (map fst arch).
 Proof. exact fetch_exact_final. Qed.
 
+(* at the level of archive descriptors: the byte ranges read from the archive are those of the descriptors,
+   in archive order, whose chunk was found neither in the prior output nor in a seed *)
+Theorem C06_archive_fetch_exact :
+  forall (H : list N -> list N) (decomp : N -> list N -> option (list N)) (D : N -> list N)
+         a src payload_of prior oidx seeds r,
+    describes D (build_source_index a) src -> out_ok D oidx prior -> sound_feeds D seeds ->
+    desc_keys_ok a -> verified_ok H decomp D a payload_of ->
+    archive_clone H decomp a payload_of prior oidx seeds = Ok r ->
+    cr_fetch r = map (dkey a) (filter (fun d => negb (found oidx seeds (dkey a d))) (a_descs a)).
+Proof. exact archive_fetch_exact. Qed.
+
+Print Assumptions C06_archive_fetch_exact.
 Print Assumptions C06_fetch_exact.
